@@ -94,6 +94,7 @@ type VC struct {
 	isErrTargets map[string]bool
 	boxes        map[Term]boxInfo
 	stableCache  map[*ssa.Global]Term
+	freshAllocs  map[Term]bool // references allocated during the call under analysis
 	callArgElems map[string]map[int][]cval // call key -> argument index -> elements of a variadic argument at call time
 	elemInfo     map[Term]elemInfo
 	slicePtr     map[Term]Term
@@ -372,6 +373,10 @@ func (vc *VC) finalizeFrames() {
 
 func (vc *VC) alloc(st *State, name string) Term {
 	r := vc.sc.Fresh(name, "Ref")
+	if vc.freshAllocs == nil {
+		vc.freshAllocs = map[Term]bool{}
+	}
+	vc.freshAllocs[r] = true
 	vc.sc.Def(And(Not(Eq(r, "nilref")), Eq(sx("root", r), r), Eq(sx("birth", r), st.clk), Eq(sx("ftag", r), "(- 1)"), Eq(sx("ebase", r), r), Eq(sx("eidx", r), "0")))
 	nc := vc.sc.Fresh("clk", "Int")
 	vc.sc.Def(Eq(nc, sx("+", st.clk, "1")))
@@ -676,7 +681,13 @@ func (vc *VC) entryTrusted(key, sort string, v, addr Term) Term {
 	vc.sc.DeclFun(pred, []string{sort}, "Bool")
 	m0 := vc.memInit(key, "(Array Ref "+sort+")")
 	if !strings.Contains(addr, "?") {
-		vc.sc.Axiom(sx(pred, sx("select", m0, addr)))
+		// only cells of objects that existed at entry hold entry values: a cell allocated during the
+		// call is zero-initialised through the same entry-memory symbol and must not make nil trusted
+		if vc.inFreshObject(addr) {
+			// no entry value lives in an object allocated by this call
+		} else {
+			vc.sc.Axiom(sx(pred, sx("select", m0, addr)))
+		}
 	}
 	vc.entryKeys[key] = sort
 	return sx(pred, v)
@@ -697,7 +708,7 @@ func (vc *VC) finalizeEntryTrust() {
 		sort := vc.entryKeys[key]
 		pred := "entryT_" + sanitize(key)
 		m0 := vc.memInit(key, "(Array Ref "+sort+")")
-		vc.sc.Axiom(fmt.Sprintf("(forall ((?a Ref)) (! (%s (select %s ?a)) :pattern ((select %s ?a))))", pred, m0, m0))
+		vc.sc.Axiom(fmt.Sprintf("(forall ((?a Ref)) (! (=> (< (birth (root ?a)) 0) (%s (select %s ?a))) :pattern ((select %s ?a))))", pred, m0, m0))
 	}
 }
 
@@ -709,4 +720,22 @@ func (vc *VC) structResult(st *State, v Term, t types.Type) {
 			vc.sc.Assume(st.reach, Or(Eq(v, "nilref"), Eq(sx("okind", sx("root", v)), "0")))
 		}
 	}
+}
+
+// inFreshObject: addr is (syntactically) a cell of an object allocated during this call - the
+// allocation itself or a field / element path below it.
+func (vc *VC) inFreshObject(addr Term) bool {
+	t := addr
+	for {
+		if strings.HasPrefix(t, "(fld_") || strings.HasPrefix(t, "(elem ") {
+			i := strings.Index(t, " ")
+			t = t[i+1:]
+			continue
+		}
+		break
+	}
+	if i := strings.IndexAny(t, " )"); i >= 0 {
+		t = t[:i]
+	}
+	return vc.freshAllocs[t]
 }
